@@ -280,6 +280,29 @@ func (u *uploader) createReport(start time.Time, expiryDate string, countFiles [
 // and an error indicating whether the operation succeeded.
 // If the file already exists, exclusiveWrite returns (false, nil).
 func exclusiveWrite(filename string, content []byte) (_ bool, rerr error) {
+	// Concurrent uploaders treat an existing report as complete: they read
+	// it, upload it, and discard it if the server rejects it. So the file must
+	// never be visible before its content is: write a temporary file and link
+	// it into place (link fails if the name exists, like O_EXCL).
+	if tmp, err := os.CreateTemp(filepath.Dir(filename), filepath.Base(filename)+".tmp*"); err == nil {
+		defer os.Remove(tmp.Name())
+		_, err = tmp.Write(content)
+		if cerr := tmp.Close(); err == nil {
+			err = cerr
+		}
+		if err != nil {
+			return false, err
+		}
+		os.Chmod(tmp.Name(), 0644)
+		err = os.Link(tmp.Name(), filename)
+		if err == nil {
+			return true, nil
+		}
+		if os.IsExist(err) {
+			return false, nil
+		}
+		// No hard links here: fall back to exclusive create.
+	}
 	f, err := os.OpenFile(filename, os.O_WRONLY|os.O_CREATE|os.O_EXCL, 0644)
 	if err != nil {
 		if os.IsExist(err) {
